@@ -56,7 +56,11 @@ func ErrReceivedMessageFromUnexpectedPeer(peerId string, swapId *SwapId) error {
 type SwapService struct {
 	swapServices *SwapServices
 
-	activeSwaps    map[string]*SwapStateMachine
+	activeSwaps map[string]*SwapStateMachine
+	// activeChannels maps the id of an active swap to the normalized channel
+	// id it was locked with. The swap data only learns its channel when the
+	// first event is applied, which happens after the swap was locked.
+	activeChannels map[string]string
 	BitcoinEnabled bool
 	LiquidEnabled  bool
 	sync.RWMutex
@@ -68,6 +72,7 @@ func NewSwapService(services *SwapServices) *SwapService {
 	return &SwapService{
 		swapServices:   services,
 		activeSwaps:    map[string]*SwapStateMachine{},
+		activeChannels: map[string]string{},
 		LiquidEnabled:  services.liquidEnabled,
 		BitcoinEnabled: services.bitcoinEnabled,
 		lastMsgLog:     map[string]string{},
@@ -981,6 +986,7 @@ func (s *SwapService) RemoveActiveSwap(swapId string) {
 	defer s.Unlock()
 	delete(s.lastMsgLog, swapId)
 	delete(s.activeSwaps, swapId)
+	delete(s.activeChannels, swapId)
 }
 
 // lockSwap locks in a swap. This function ensures that we only have one active
@@ -999,9 +1005,15 @@ func (s *SwapService) lockSwap(swapId, channelId string, fsm *SwapStateMachine) 
 			return ActiveSwapError{channelId: channelId, swapId: id}
 		}
 	}
+	for id, lockedChannelId := range s.activeChannels {
+		if lockedChannelId == normalizedChannelId {
+			return ActiveSwapError{channelId: channelId, swapId: id}
+		}
+	}
 
 	// Add active swap
 	s.activeSwaps[swapId] = fsm
+	s.activeChannels[swapId] = normalizedChannelId
 	return nil
 }
 
